@@ -123,6 +123,11 @@ Proof.
   cbn [rev app lookahead]. rewrite app_nil_r. reflexivity.
 Qed.
 
+(* no source-location filter (-L) *)
+Definition loc_free_all (c : cfg) : Prop := (forall f, loc_of c f = None) /\ lmode_in c = false.
+Lemma loc_free_hidden c f : loc_free_all c -> loc_hidden c f = false.
+Proof. intros [A B]. unfold loc_hidden. rewrite A, B. reflexivity. Qed.
+
 (* ------------------------------------------------------------------ P2: the filter automaton = vis *)
 Lemma run_steps_cons {S} (step : S -> rec -> S * list vev) s r rs :
   run_steps step s (r :: rs) =
@@ -212,6 +217,8 @@ Proof.
     + (* -F function *)
       cbn [negb andb].
       assert (Ei : (0 <? i + 1) = true) by lia.
+      destruct (loc_hidden c f) eqn:El.
+      { kids_then_exit HK. close_branch; [rewrite Ei, orb_true_r|]; reflexivity. }
       destruct ((match q_depth (trig_of c f) with Some x => x | None => gdepth c end <=? 0) || q_hide (trig_of c f)) eqn:Eh.
       * kids_then_exit HK. close_branch; [rewrite Ei, orb_true_r|]; reflexivity.
       * cbn [negb]. unfold update_entry, set_disp.
@@ -232,6 +239,8 @@ Proof.
       * assert (Ei : fmode_in c && negb (0 <? i) = false).
         { destruct (fmode_in c); [|reflexivity]. cbn in *. lia. }
         rewrite Ei. rewrite orb_false_r.
+        destruct (loc_hidden c f) eqn:El.
+        { kids_then_exit HK. close_branch; reflexivity. }
         destruct ((match q_depth (trig_of c f) with Some x => x | None => fd end <=? 0) || q_hide (trig_of c f)) eqn:Eh.
         -- kids_then_exit HK. close_branch; reflexivity.
         -- cbn [negb]. unfold update_entry, set_disp.
